@@ -51,6 +51,11 @@ OPS = [
     (r"\b32\b", "31"), (r"\b36\b", "35"), (r"\b80\b", "79"), (r"\b8\b", "9"), (r"\b4\b", "5"), (r"\b2\b", "3"), (r"\b0\b", "1"), (r"\b1\b", "0"),
     (r"\.first\(\)", ".last()"), (r"\.last\(\)", ".first()"), (r"\.iter\(\)\.enumerate\(\)", ".iter().rev().enumerate()"),
     (r"to_le_bytes", "to_be_bytes"), (r"LittleEndian", "BigEndian"),
+    # third operator set: swallowed errors, loop control, range bounds, emptiness tests
+    (r"\?;", ".ok();"), (r"\bcontinue\b", "break"), (r"\bbreak\b", "continue"), (r"\.\.=", ".."), (r"(?<![.\w])\.\.(?![.=])", "..="),
+    (r"\.rev\(\)", ""), (r" % ", " / "), (r"\.is_empty\(\)", ".len() == 1"), (r"\.is_some\(\)", ".is_none()"), (r"\.is_none\(\)", ".is_some()"),
+    (r"\.saturating_sub\(1\)", ""), (r"\bwrite_all\(", "write("), (r"\bread_exact\(", "read("), (r"\.truncate\(true\)", ".truncate(false)"),
+    (r"\.unwrap_or\(0\)", ".unwrap_or(1)"), (r"\bheight\b(?! [:=])", "(height + 1)"), (r"\bSeekFrom::Start\(", "SeekFrom::Current(0 * "),
 ]
 
 
@@ -78,6 +83,8 @@ def candidates(repo, files):
                     new = code[:m.start()] + rep + code[m.end():] + l[len(code):]
                     out.append((f, i, l, new, "%s -> %s" % (m.group(0), rep)))
             # dropped statements
+            if re.search(r"^(self\.)?[a-z_\.]+\.(insert|remove|push|clear|extend|truncate|retain|sort|sort_unstable|dedup)\(.*\);$", st) or re.search(r"^(self\.)?[a-z_\.]+ (\+|-)= .*;$", st):
+                out.append((f, i, l, "", "statement dropped"))
             if re.search(r"\.(flush|close)\(\)\??;?$", st) or st.startswith("unspents.remove(") or st.startswith("self.cur_height = ") or st.startswith("reader.seek("):
                 out.append((f, i, l, "", "statement dropped"))
     return out
